@@ -177,6 +177,9 @@ def generate(rng, tier, idx):
             sc['flip'] = [rng.randrange(0, 400), rng.choice(['\x0b', '\x0c', '\x1c', '\x1d', '\x1e', '\x85', '\u2028', '\u2029', '\x00']), 'lf']
     elif rng.random() < 0.1:
         sc['ws'] = rng.randrange(0, 10)
+    if sc['api'] == 'lib':
+        # the same message through `gemato openpgp-verify`: alone, from stdin, or beside the genuine message on one command line
+        sc['opv'] = rng.choice(['single', 'stdin', 'good-first', 'bad-first'])
     return sc
 
 
@@ -407,6 +410,7 @@ def exec_real(sc):
                'unknown': None, 'other-only': 'other.pub.asc'}[key]
         keyblob = GS.keydata(pub) if pub else None
         fpr = GS.FPR.get({'other-only': 'other'}.get(key, key))
+    signed0 = signed
     signed, mutated = flip_text(signed, sc.get('flip'), sc.get('ws'))
     if key.startswith('subkey') and sc.get('trust') is not None:
         sc = dict(sc, trust=None)
@@ -445,7 +449,43 @@ def exec_real(sc):
                             r2 = call(lambda: m.load(io.StringIO(signed), verify_openpgp=True, openpgp_env=env))
                     finally:
                         env.close()
+                    opv = None
+                    if sc.get('opv') and keyblob is not None and sc.get('trust') is None and fault is None and '\r' not in signed:
+                        # `gemato openpgp-verify -K key <file>...`: exit status 0 only if EVERY named message is accepted
+                        kf = os.path.join(w.base, 'key.asc')
+                        with open(kf, 'wb') as f:
+                            f.write(keyblob)
+                        fbad, fgood = os.path.join(w.base, 'msg.asc'), os.path.join(w.base, 'genuine.asc')
+                        for fn_, tx_ in ((fbad, signed), (fgood, signed0)):
+                            with open(fn_, 'w', encoding='utf8', newline='') as f:
+                                f.write(tx_)
+                        base = ['openpgp-verify', '-R', '-K', kf] + (['--proxy', sc['proxy']] if sc.get('proxy') else [])
+                        if sc['opv'] == 'stdin':
+                            opv = [('stdin', run_cli(base, stdin=io.StringIO(signed)))]
+                        elif sc['opv'] == 'single' or not mutated or not expected_real(sc, False):
+                            opv = [('single', run_cli(base + [fbad]))]
+                        else:
+                            alone = run_cli(base + [fgood])
+                            if alone['kind'] == 'ok' and alone['rc'] == 0:
+                                opv = [(sc['opv'], run_cli(base + ([fgood, fbad] if sc['opv'] == 'good-first' else [fbad, fgood])))]
+                            else:
+                                violations.append(viol('sig.good-rejected', 'gemato %s <genuine message>: %s' % (' '.join(base[:2]), '%s rc=%r' % (alone['kind'], alone.get('rc'))), sig='opv-alone'))
                     out = ['real', key, sc.get('trust'), sc.get('peer_time'), fault, mutated, accept, r1[0], r1[1] if r1[0] != 'ok' else 'data', bool(m.openpgp_signed)]
+                    for how_, c_ in (opv or []):
+                        counters['real.openpgp-verify.' + how_] = 1
+                        out.append([how_, c_['kind'], c_.get('rc')])
+                        whatc = 'gemato openpgp-verify -K (%s; key=%s peer_time=%s mutated=%s)' % (how_, key, sc.get('peer_time'), mutated)
+                        if c_['kind'] == 'INTERNAL':
+                            violations.append(viol('sig.internal-error', '%s: %s' % (whatc, c_['name']), sig=c_['name']))
+                        elif c_['kind'] != 'ok':
+                            violations.append(viol('sig.wrong-failure', '%s: %s %s' % (whatc, c_['kind'], c_.get('name')), sig=str(c_.get('name'))))
+                        elif accept and c_['rc'] != 0:
+                            violations.append(viol('sig.good-rejected', '%s: exit status %r' % (whatc, c_['rc']), sig='opv'))
+                        elif not accept and c_['rc'] == 0:
+                            violations.append(viol('sig.accepted', '%s: exit status 0' % whatc, sig='opv:' + how_))
+                        elif not accept and (c_['rc'] != 1 or not any(l_[0] == 'ERROR' for l_ in c_.get('log', []))):
+                            violations.append(viol('sig.wrong-failure', '%s: exit status %r, errors logged: %d' % (
+                                whatc, c_['rc'], sum(1 for l_ in c_.get('log', []) if l_[0] == 'ERROR')), sig='opv-rc'))
                     what = 'key=%s trust=%s peer_time=%s fault=%s mutated=%s' % (key, sc.get('trust'), sc.get('peer_time'), fault, mutated)
                     for r in (r1, r2):
                         if r[0] == 'INTERNAL':
